@@ -72,6 +72,83 @@ def check_obs_event(before, after, removed, added):
                              % (prev, before))
 
 
+def gen_dict_op(r, key, val, ops=OPS):
+    """One dict-mutator op; returns (op, #key validations, #value validations)
+    it would perform if nothing fails."""
+    k = r.choice(ops)
+    op = {"k": k}
+    nk = nv = 0
+    if k == "setitem":
+        op["key"] = key()
+        op["v"] = val()
+        nk = nv = 1
+    elif k in ("delitem", "pop"):
+        op["key"] = key(True)
+    elif k == "pop_default":
+        op["key"] = key(True)
+    elif k in ("update_map", "update_pairs", "ior_map", "ior_pairs"):
+        op["pairs"] = [[key(), val()] for _ in range(r.randint(0, 4))]
+        nk = nv = len(op["pairs"])
+        if k.endswith("pairs") and r.random() < 0.1:
+            op["iter_raise_at"] = r.randint(0, len(op["pairs"]))
+            op["iter_exc"] = r.choice(["ValueError", "RuntimeError", "KeyError"])
+    elif k == "update_bad":
+        op["pairs"] = [[key(), val()] for _ in range(r.randint(0, 2))]
+        op["bad"] = r.choice(["len1", "len3", "noniter"])
+        op["bad_at"] = r.randint(0, len(op["pairs"]))
+        nk = nv = op["bad_at"]
+    elif k == "setdefault":
+        op["key"] = key(True)
+        op["v"] = val()
+        nk = nv = 1
+    elif k == "setdefault_none":
+        op["key"] = key(True)
+        nk = nv = 1
+    return op, nk, nv
+
+
+def build_dict_arg(op):
+    """The concrete argument handed to update/|= (same object shape for the
+    model and for the system under test)."""
+    k = op["k"]
+    pairs = [(raw(a), raw(b)) for a, b in op.get("pairs", ())]
+    if k in ("update_map", "ior_map"):
+        return dict(pairs)
+    if k == "update_bad":
+        bad = {"len1": (1,), "len3": (1, 2, 3), "noniter": 5}[op["bad"]]
+        pairs = list(pairs)
+        pairs.insert(min(op["bad_at"], len(pairs)), bad)
+        return pairs
+    if "iter_raise_at" in op:
+        return RaisingIter(pairs, op["iter_raise_at"], op["iter_exc"])
+    return pairs
+
+
+def sut_dict_apply(td, op):
+    k = op["k"]
+    if k == "setitem":
+        return sut(td.__setitem__, raw(op["key"]), raw(op["v"]))
+    if k == "delitem":
+        return sut(td.__delitem__, raw(op["key"]))
+    if k == "pop":
+        return sut(td.pop, raw(op["key"]))
+    if k == "pop_default":
+        return sut(td.pop, raw(op["key"]), -1)
+    if k == "popitem":
+        return sut(td.popitem)
+    if k == "clear":
+        return sut(td.clear)
+    if k == "setdefault":
+        return sut(td.setdefault, raw(op["key"]), raw(op["v"]))
+    if k == "setdefault_none":
+        return sut(td.setdefault, raw(op["key"]))
+    if k in ("update_map", "update_pairs", "update_bad"):
+        return sut(td.update, build_dict_arg(op))
+    if k in ("ior_map", "ior_pairs"):
+        return sut(td.__ior__, build_dict_arg(op))
+    raise AssertionError(k)
+
+
 class Prop:
     ID = ID
     LEVEL = "exploration"
@@ -132,35 +209,8 @@ class Prop:
                 init.append([{"t": "int", "v": kv}, {"t": "int", "v": fresh()}])
         ops = []
         for _ in range(nops):
-            k = r.choice(OPS)
-            op = {"k": k}
-            nk = nv = 0
-            if k == "setitem":
-                op["key"] = key()
-                op["v"] = val()
-                nk = nv = 1
-            elif k in ("delitem", "pop"):
-                op["key"] = key(True)
-            elif k == "pop_default":
-                op["key"] = key(True)
-            elif k in ("update_map", "update_pairs", "ior_map", "ior_pairs"):
-                op["pairs"] = [[key(), val()] for _ in range(r.randint(0, 4))]
-                nk = nv = len(op["pairs"])
-                if k.endswith("pairs") and r.random() < 0.1:
-                    op["iter_raise_at"] = r.randint(0, len(op["pairs"]))
-                    op["iter_exc"] = r.choice(["ValueError", "RuntimeError", "KeyError"])
-            elif k == "update_bad":
-                op["pairs"] = [[key(), val()] for _ in range(r.randint(0, 2))]
-                op["bad"] = r.choice(["len1", "len3", "noniter"])
-                op["bad_at"] = r.randint(0, len(op["pairs"]))
-                nk = nv = op["bad_at"]
-            elif k == "setdefault":
-                op["key"] = key(True)
-                op["v"] = val()
-                nk = nv = 1
-            elif k == "setdefault_none":
-                op["key"] = key(True)
-                nk = nv = 1
+            op, nk, nv = gen_dict_op(r, key, val)
+            k = op["k"]
             sites = []
             if kk == "point" and nk:
                 sites.append(("kvalidator", nk))
@@ -179,23 +229,6 @@ class Prop:
                 "ops": ops}
 
     # ------------------------------------------------------------------ model
-    @staticmethod
-    def build_arg(op):
-        """The concrete argument handed to update/|= (same object shape for the
-        model and for the system under test)."""
-        k = op["k"]
-        pairs = [(raw(a), raw(b)) for a, b in op.get("pairs", ())]
-        if k in ("update_map", "ior_map"):
-            return dict(pairs)
-        if k == "update_bad":
-            bad = {"len1": (1,), "len3": (1, 2, 3), "noniter": 5}[op["bad"]]
-            pairs = list(pairs)
-            pairs.insert(min(op["bad_at"], len(pairs)), bad)
-            return pairs
-        if "iter_raise_at" in op:
-            return RaisingIter(pairs, op["iter_raise_at"], op["iter_exc"])
-        return pairs
-
     @staticmethod
     def model_apply(m, op, kk, vk):
         k = op["k"]
@@ -326,28 +359,7 @@ class Prop:
             before = dict(m)
             fired0 = env.fired["raise"]
             ret_m, val_exc, dict_exc = self.model_apply(m, op, kk, vk)
-            if k == "setitem":
-                ret, e = sut(td.__setitem__, raw(op["key"]), raw(op["v"]))
-            elif k == "delitem":
-                ret, e = sut(td.__delitem__, raw(op["key"]))
-            elif k == "pop":
-                ret, e = sut(td.pop, raw(op["key"]))
-            elif k == "pop_default":
-                ret, e = sut(td.pop, raw(op["key"]), -1)
-            elif k == "popitem":
-                ret, e = sut(td.popitem)
-            elif k == "clear":
-                ret, e = sut(td.clear)
-            elif k == "setdefault":
-                ret, e = sut(td.setdefault, raw(op["key"]), raw(op["v"]))
-            elif k == "setdefault_none":
-                ret, e = sut(td.setdefault, raw(op["key"]))
-            elif k in ("update_map", "update_pairs", "update_bad"):
-                ret, e = sut(td.update, self.build_arg(op))
-            elif k in ("ior_map", "ior_pairs"):
-                ret, e = sut(td.__ior__, self.build_arg(op))
-            else:
-                raise AssertionError(k)
+            ret, e = sut_dict_apply(td, op)
             env.end_op()
             injected = env.fired["raise"] > fired0
             if injected:
